@@ -74,6 +74,7 @@ Proof.
     exact (Hx sid eq_refl).
   - need_up H Hup. injection H as H. subst d'. exact Hin.
   - need_up H Hup. injection H as H. subst d'. exact Hin.
+  - need_up H Hup. injection H as H. subst d'. exact Hin.
   - cbn [dstep] in H. injection H as H. subst d'. exact Hin.
   - cbn [dstep] in H. destruct (d_up d); [discriminate|].
     match type of H with (if ?c then _ else _) = _ => destruct c end; [|discriminate].
@@ -104,35 +105,6 @@ Proof.
 Qed.
 
 (* ---------- C13: rollback ---------- *)
-
-Lemma rollback_shape : forall d e d1, dstep d (DRollback e) = Some d1 ->
-  d_up d = false /\ (exists b, In b (d_bolt d) /\ br_epoch b = e)
-  /\ d_bolt d1 = filter (fun b => br_epoch b <=? e) (d_bolt d)
-  /\ d_nb d1 = d_nb d /\ d_files d1 = d_files d /\ d_up d1 = false.
-Proof.
-  intros d e d1 H. cbn [dstep] in H. destruct (d_up d); [discriminate|].
-  match type of H with (if ?c then _ else _) = _ => destruct c eqn:Hc end; [|discriminate].
-  injection H as H. subst d1. split; [reflexivity|]. split.
-  - apply existsb_exists in Hc. destruct Hc as [b [Hb He]]. exists b. split; [exact Hb|].
-    apply Z.eqb_eq. exact He.
-  - repeat split; reflexivity.
-Qed.
-
-Lemma rollback_covered : forall ef d e d1 k,
-  DInv ef d -> dstep d (DRollback e) = Some d1 -> assocZ e (d_nb d) = Some k -> covered d1 = k.
-Proof.
-  intros ef d e d1 k I H Hk.
-  destruct (rollback_shape d e d1 H) as [_ [[b [Hb He]] [Hbolt [Hnb _]]]].
-  assert (Hb1 : In b (d_bolt d1)).
-  { rewrite Hbolt. apply filter_In. split; [exact Hb|]. apply Z.leb_le. lia. }
-  destruct (newest_Some (d_bolt d1)) as [n En]; [intros Hnil; rewrite Hnil in Hb1; destruct Hb1|].
-  assert (Hs1 : bsorted (d_bolt d1)) by (rewrite Hbolt; apply bsorted_filter; exact (di_sorted ef d I)).
-  assert (Hge := bsorted_max _ n Hs1 En b Hb1).
-  assert (Hn := newest_In _ _ En). rewrite Hbolt in Hn. apply filter_In in Hn.
-  destruct Hn as [_ Hle]. apply Z.leb_le in Hle.
-  assert (Hen : br_epoch n = e) by lia.
-  unfold covered. rewrite En, Hnb, Hen, Hk. reflexivity.
-Qed.
 
 Theorem rollback_restores : forall evs d e d1 d2 k,
   drun dinit evs = Some d ->
@@ -210,6 +182,7 @@ Proof.
     injection H as H. subst d'. exact Hne.
   - need_up H Hup. injection H as H. subst d'. exact Hne.
   - need_up H Hup. injection H as H. subst d'. exact Hne.
+  - need_up H Hup. injection H as H. subst d'. exact Hne.
   - cbn [dstep] in H. injection H as H. subst d'. exact Hne.
   - destruct (recover_shape d d' H) as [n [r [_ [_ [_ [_ Hd]]]]]]. subst d'. exact Hne.
   - destruct (rollback_shape d e d' H) as [_ [[b [Hb He]] [Hbolt _]]]. intros Hnil.
@@ -268,6 +241,7 @@ Proof.
   - need_up H Hup.
     match type of H with (if ?c then _ else _) = _ => destruct c end; [discriminate|].
     injection H as H. subst d'. exact Hin.
+  - need_up H Hup. injection H as H. subst d'. exact Hin.
   - need_up H Hup. injection H as H. subst d'. cbn [d_copy]. apply in_or_app. right. exact Hin.
 Qed.
 
@@ -389,6 +363,7 @@ Proof.
   - need_up H Hup.
     match type of H with (if ?c then _ else _) = _ => destruct c end; [discriminate|].
     injection H as H. subst d'. cbn [d_copy]. lia.
+  - need_up H Hup. injection H as H. subst d'. cbn [d_copy]. lia.
   - need_up H Hup. injection H as H. subst d'. cbn [d_copy]. rewrite count_occ_app. lia.
   - need_up H Hup. injection H as H. subst d'. cbn [d_copy]. apply count_release.
 Qed.
